@@ -262,6 +262,7 @@ Definition check_vn_f64 (ws : list spec_float) (p p' : list N) : option (bool * 
     let k := part_count p in
     let g0 := gap (loads zs p k) in
     let g1 := gap (loads zs p' k) in
-    let structure := Nat.eqb (length p') (length p) && forallb (fun x => (x <=? maxN p)%N) p' in
+    let m := maxN p in
+    let structure := Nat.eqb (length p') (length p) && forallb (fun x => (x <=? m)%N) p' in
     Some (structure && (g1 <=? g0 + sumZ zs / 2 ^ 45)%Z, (g1 <=? g0)%Z)
   end.
